@@ -923,6 +923,10 @@ def check_normalise(ctx, req, streams):
     except ValueError:
         got = None
     case = dict(kind='normalise', request=req, streams=list(streams))
+    want = spec_normalise(req, streams)
+    if got != want:
+        ctx.disagree('kind=normalise;form=%s;symptom=documented_list' % request_form(req, streams), case, got, mo,
+                     'requested product names do not expand to the DOCUMENTED product list / skip flag', spec=want)
     if got != mo:
         form = request_form(req, streams)
         ctx.disagree('kind=normalise;form=%s;symptom=%s' % (form, 'error' if (got is None) != (mo is None) else
@@ -931,6 +935,29 @@ def check_normalise(ctx, req, streams):
     ctx.traces_validated += 1
     ctx.note_case(('N', repr(req), tuple(streams)), nontrivial=bool(req), sample=case if req in ('all', 'default') else None)
     ctx.count('normalise:' + ('str' if isinstance(req, str) else 'list'))
+
+
+DOC_DEFAULT = ['l1.K', 'l1.B', 'l1.G', 'l2.GPHASE']
+
+
+def spec_normalise(req, streams):
+    """the documented expansion, written independently of the code and of the Coq model (documented tables)"""
+    if isinstance(req, str):
+        items = ([] if not req else list(streams) if req == 'all' else list(DOC_DEFAULT) if req == 'default'
+                 else [x.strip() for x in req.split(',')])
+    else:
+        items = list(req)
+    out = []
+    for x in items:
+        if '.' in x:
+            out.append(x)
+        elif x in streams:
+            out += [x + '.' + t for t in TYPES]
+        elif x in TYPES:
+            out += [s + '.' + x for s in streams]
+        else:
+            return None
+    return out, (req in ('all', 'default') if isinstance(req, str) else False) or any('.' not in x for x in items)
 
 
 def request_form(req, streams):
